@@ -338,6 +338,7 @@ theorem invJ_step {c : Conn α} (hw : Inv c) (h10 : Inv10 c) (hb : InvBorn c) (h
   | get hdr ver budget => exact invJ_get hw h _ _ _
   | sclose req retry => exact invJ_sclose hw h _ _
   | «end» => exact invJ_frame (c' := { c with isDone := true }) h (ext_of_eq rfl rfl rfl) (StrKeep.refl _) (ExNoJ.refl _)
+  | evict sid n => exact invJ_frame (c' := evict c sid n) h (ext_of_eq rfl rfl rfl) (StrKeep.refl _) (ExNoJ.refl _)
 
 /-- with the routing invariant: a JSON body carries responses only -/
 theorem json_body_responses {c : Conn α} (h10 : Inv10 c) (hj : InvJ c) (j : Nat) (e : Exch α) (he : c.exs[j]? = some e)
